@@ -283,15 +283,15 @@ theorem record_shift {K α σ : Type} [Field K] (lab lab' : Nat → K) (q q' : N
 
 /-- float-keyed events: if the time → step conversion of the shifted run applied to the shifted
     time agrees with the unshifted one, the same events are selected at every step. -/
-theorem selectAt_shift {K β : Type} [Field K] (toStep toStep' : K → Int) (τ : K)
-    (h : ∀ t, toStep' (t + τ) = toStep t) (events : List (K × β)) (k : Nat) :
-    selectAt toStep' (events.map (fun e => (e.1 + τ, e.2))) k = selectAt toStep events k := by
+theorem selectAt_shift {K β : Type} [Field K] (hit hit' : K → Nat → Bool) (τ : K)
+    (h : ∀ t k, hit' (t + τ) k = hit t k) (events : List (K × β)) (k : Nat) :
+    selectAt hit' (events.map (fun e => (e.1 + τ, e.2))) k = selectAt hit events k := by
   induction events with
   | nil => rfl
   | cons e es ih =>
     simp only [selectAt, List.map_cons, List.filter_cons] at ih ⊢
-    rw [h e.1]
-    by_cases hk : toStep e.1 == (k : Int)
+    rw [h e.1 k]
+    by_cases hk : hit e.1 k = true
     · simp only [hk, if_true, List.map_cons]
       rw [ih]
     · simp only [hk]
